@@ -29,7 +29,8 @@ def cases(tier, seed, shard, nshards, rng):
             nkeys = rng.randint(1, 3)
             yield {"kind": "lru", "c11": {"mode": "rr", "maxsize": rng.choice([None, 1, 2]),
                                           "tasks": [[["call", rng.randrange(nkeys)] if rng.random() < 0.85 else ["clear"]
-                                                     for _ in range(rng.randint(1, 5))]],
+                                                     for _ in range(rng.randint(1, 5))]
+                                                    for _ in range(rng.choice([1, 1, 2, 3]))],
                                           "susp": rng.choice([1, 2]), "fail": [], "cancel_task": 0, "runs": 1, "seed": 0,
                                           "epilogue": [rng.randrange(nkeys + 1) for _ in range(rng.randint(3, 6))]}}
         elif kind == "cached_property":
